@@ -307,21 +307,41 @@ Definition env_pv (env : list (str * sterm)) (v : str) : pyval :=
 
 Definition is_fact_clause (c : clause) : bool := is_prefix (s_ "fact") (c_name c).
 
+(* the variables of a literal numbered by first occurrence (how a reader of the run-time term numbers the Variable
+   objects it meets) *)
+From YP Require Import Comp.CompileClause Term.Show.
+Fixpoint index_of (v : str) (l : list str) (i : nat) : nat :=
+  match l with [] => i | x :: r => if str_eqb v x then i else index_of v r (S i) end.
+Definition rho_first (t : sterm) (v : str) : term := TVar (index_of v (dedup (sterm_vars t)) 0).
+
 Fixpoint lits_obs (cs : list clause) (envs : list (list (str * sterm))) : list obs :=
   match cs, envs with
   | c :: cr, env :: er =>
       match c_args c with
-      | t :: _ => OL [opt_py_obs (lit_py (fun _ => PNone) t); opt_py_obs (lit_py (env_pv env) t)]
+      | t :: _ => OL [opt_py_obs (lit_py (fun _ => PNone) t); opt_py_obs (lit_py (env_pv env) t);
+                      term_obs (sden (rho_first t) t)]
       | [] => otag "no-argument" []
       end :: lits_obs cr er
   | _, _ => []
   end.
 
-(* for the i-th clause named fact<i>: [value with all variables unbound; value with the variables bound as in envs[i]] *)
+(* for the i-th clause named fact<i>: [Python value with all variables unbound; Python value with the variables bound as in
+   envs[i]; the run-time term itself (sden), variables numbered by first occurrence] *)
 Definition run_lits (s : str) (envs : list (list (str * sterm))) : obs :=
   match front s with
   | Some prog => otag "ok" [OL (lits_obs (filter is_fact_clause prog) envs)]
   | None => otag "none" []
   end.
 
-Definition run_c16 (s : str) (envs : list (list (str * sterm))) : obs := OL [run_front s; run_lits s envs].
+(* the atom tables of two engines under a sequence of atom(name) calls: the object each call returns
+   (objects are numbered by creation; every call offers the next number as the identity of a new Atom) *)
+Fixpoint atoms_run (calls : list (bool * str)) (fresh : nat) (tb1 tb2 : atom_table) : list obs :=
+  match calls with
+  | [] => []
+  | (e, name) :: r =>
+      if e then let '(o, tb) := yp_atom name fresh tb2 in onat o :: atoms_run r (S fresh) tb1 tb
+      else let '(o, tb) := yp_atom name fresh tb1 in onat o :: atoms_run r (S fresh) tb tb2
+  end.
+
+Definition run_c16 (s : str) (envs : list (list (str * sterm))) (calls : list (bool * str)) : obs :=
+  OL [run_front s; run_lits s envs; OL (atoms_run calls 0 [] [])].
